@@ -102,6 +102,7 @@ type lexer struct {
 	last      atomic.Value
 	n         int  // number of emitted tokens
 	hash      bool // whether a comment has been scanned
+	bquote    bool // whether the current token is a backquote
 }
 
 func newLexer(env *interp.ExecEnv, name string, r io.RuneScanner) *lexer {
@@ -657,6 +658,13 @@ func (l *lexer) lexToken(tok int) action {
 			return l.lexPipeline
 		}
 	case ')', RAE:
+		// a backquote command substitution is closed by a backquote only
+		bquote := l.bquote
+		l.bquote = false
+		if l.cmdSubst == '`' && len(l.stack) == 1 && !bquote {
+			l.error(l.pos, "syntax error: unexpected '"+ops[tok]+"'")
+			return nil
+		}
 		if l.cmdSubst != 0 && len(l.stack) == 1 {
 			l.emit(tok)
 			l.stack = nil
@@ -975,6 +983,7 @@ func (l *lexer) scanRawToken() int {
 					return WORD
 				}
 				if len(l.stack) != 0 {
+					l.bquote = true
 					return ')'
 				}
 				return '('
